@@ -196,8 +196,8 @@ def path_submsgs(ix, p, depth=8):
             a2 = ix.inline(a)
             out[(a2, p.fn.key)] = SubMsgSite(a2, p.fn, (p.fn.pretty,))
     for e in p.events:
-        if e.target is None or not constructs_submsg(ix, e.target):
-            continue
+        if e.target is None or getattr(e, "opened", False) or not constructs_submsg(ix, e.target):
+            continue   # an opened call's own events follow it on the path: only what this path really calls counts
         m2 = ix.param_map(e.target, e.args)
         for s in reachable_submsgs(ix, e.target, m2, (p.fn.pretty,), depth):
             out[(s.v, s.fn.key)] = s
